@@ -112,7 +112,9 @@ func (in *Interp) initSched() {
 	s.onces = map[*value]*onceState{}
 	if in.cfg.Race {
 		s.race = newRaceState()
+		in.noteAssumption("sched: happens-before data-race detection over loads, stores and map operations of the interpreted code (accesses inside engine models -- copy, append, reflect, formatting -- are not tracked)")
 	}
+	in.noteAssumption(fmt.Sprintf("sched: goroutines are interleaved at synchronisation operations only (go, channel operations, Mutex/RWMutex/WaitGroup/Once, sync/atomic, Sleep/Gosched, vSched); delay-bounded exploration with at most %d deviations from the deterministic round-robin scheduler per path; select among several ready cases and the choice of a rendezvous partner are explored exhaustively", in.cfg.MaxPreempt))
 }
 
 // killAll releases every parked goroutine at the end of a path and waits for them to unwind.
